@@ -204,7 +204,22 @@ class Crate:
             self.by_path[b["path"]] = b
 
     def body(self, path):
-        return self.by_path.get(path)
+        b = self.by_path.get(path)
+        if b is not None or not path or "::" not in path or path.startswith("<") or "{closure" in path:
+            return b
+        # a function that was moved to another module / impl block keeps its name: accept the unique function of that name
+        last = path.rsplit("::", 1)[-1]
+        if not hasattr(self, "_by_last"):
+            self._roots = {p_.split("::", 1)[0] for p_ in self.by_path if "::" in p_ and not p_.startswith("<")}
+            self._by_last = {}
+            for p_, b_ in self.by_path.items():
+                if "{closure" in p_ or "{constant" in p_ or p_.startswith("<") or "yaserde_tests" in p_:
+                    continue
+                self._by_last.setdefault(p_.rsplit("::", 1)[-1], []).append(b_)
+        if path.split("::", 1)[0] not in self._roots:
+            return None   # not a path into this crate (std, dependencies)
+        c = self._by_last.get(last, [])
+        return c[0] if len(c) == 1 else None
 
     def bodies_matching(self, pred):
         return [b for b in self.bodies if pred(b)]
